@@ -14,16 +14,17 @@ class StringConfigs(BaseModel):
         valid_var_regex = re.compile(r"[A-Z][A-Z_0-9]?")
 
         for key, sz in val.items():
-            assert key.endswith("$") or key.endswith(
-                "$()"
-            ), f"{key} must end with a $ or $()"
-            assert key == key.upper(), f"{key} must be all caps"
+            if not (key.endswith("$") or key.endswith("$()")):
+                raise ValueError(f"{key} must end with a $ or $()")
+            if key != key.upper():
+                raise ValueError(f"{key} must be all caps")
             var_only = key[: key.find("$")]
-            assert 1 <= len(var_only) <= 2, f"{var_only} must be 1 or 2 characters"
-            assert valid_var_regex.match(
-                var_only
-            ), f"{var_only} must be a valid BASIC name"
-            assert 0 < sz < 32767, f"{sz} for {key} must be between 0 and 32767"
+            if not 1 <= len(var_only) <= 2:
+                raise ValueError(f"{var_only} must be 1 or 2 characters")
+            if not valid_var_regex.match(var_only):
+                raise ValueError(f"{var_only} must be a valid BASIC name")
+            if not 0 < sz < 32767:
+                raise ValueError(f"{sz} for {key} must be between 0 and 32767")
         return val
 
 
